@@ -236,6 +236,14 @@ def instOf : STy → JV → Option Scalar
   | .str, .str s => some (.str s)
   | _, _ => none
 
+/-- the first test of `coerce_single_value`: `isinstance(value, setting.type)` and not a
+    bool given for a non-bool type (bool is a subclass of int, but std::bool is no std::int64) -/
+def instOfSetting : STy → JV → Option Scalar
+  | .bool, .bool b => some (.bool b)
+  | .int, .int i => some (.int i)
+  | .str, .str s => some (.str s)
+  | _, _ => none
+
 def durErr : Duration.DErr → Err
   | .invalid => .invalidValue | .range => .numericOutOfRange
 
@@ -265,7 +273,7 @@ def mkEnum (vals : List String) (s : String) : Except Err Scalar :=
 
 /-- `coerce_single_value` -/
 def coerceSingle (t : STy) (v : JV) : Except Err Scalar :=
-  match instOf t v with
+  match instOfSetting t v with
   | some s => .ok s
   | none =>
     match t, v with
@@ -559,14 +567,20 @@ def addValue (m : SMap) (s : Setting) (name : String) (scope : Scope) (value : V
     | .set _, _ => .error .outOfDomain
     | _, _ => .error .typeError              -- list(None) / list(<object>)
 
+/-- `new_value = exist_value - {value}`, stored – unless there is no entry at
+    this scope and nothing was removed: then the storage is returned unchanged
+    (an empty entry would mask the value of a less specific scope). -/
+def remStore (m : SMap) (name : String) (scope : Scope) (l l' : List Obj) : SMap :=
+  if (m.get name).isNone && l' == l then m else setValue m name (.objs l') scope
+
 /-- the CONFIG_REM arm (after coercion) -/
 def remValue (m : SMap) (s : Setting) (name : String) (scope : Scope) (value : Val) : Except Err SMap :=
   match s.ty with
   | .sc _ => .error .internalServer
   | .obj _ =>
     match existValue m name s, value with
-    | .objs l, .obj o => .ok (setValue m name (.objs (l.filter fun x => !x.pyEq o)) scope)
-    | .objs l, .sc .none => .ok (setValue m name (.objs l) scope)
+    | .objs l, .obj o => .ok (remStore m name scope l (l.filter fun x => !x.pyEq o))
+    | .objs l, .sc .none => .ok (remStore m name scope l l)
     | .objs _, _ => .error .outOfDomain
     | .set _, _ => .error .outOfDomain
     | _, _ => .error .typeError              -- None - {…} / <object> - {…}
@@ -834,7 +848,7 @@ def constText : Scalar → Except Err String
     else .error .valueError
   | .dur us => .ok ("<__std__::duration>'" ++ String.ofList (Duration.toIso us) ++ "'")
   | .enum s => (quoteStr s).map fun q => "<enum>" ++ q     -- placeholder, see `constTextTy`
-  | .mem _ => .error .valueError                           -- "unexpected constant type"
+  | .mem n => .ok ("<cfg::memory>'" ++ String.ofList (Memory.memToStr n) ++ "'")
   | .none => .ok "{}"
 
 /-- enum constants print their EdgeQL type name, which lives in the type -/
